@@ -438,6 +438,110 @@ def check_shared_table(st):
                         return
 
 
+TYPED = [2, 2.0, True, 1, 1.0, 0, False, 0.0, 3, 3.0]
+
+
+def sibling_groups():
+    """groups of expressions over the SAME field objects that differ only in constants that compare equal but are of a
+    different type (2 / 2.0, 1 / True / 1.0, 0 / False / 0.0): a program declares several of them side by side"""
+    groups = []
+    for op in BIN:
+        for rev in (False, True):
+            for order in (TYPED, TYPED[::-1]):
+                g = []
+                for c in order:
+                    l, r = ['f', 'a'], ['c', c]
+                    g.append(['bin', op, r, l] if rev else ['bin', op, l, r])
+                groups.append(g)
+    for order in (TYPED, TYPED[::-1]):
+        groups.append([['bin', 'mul', ['bin', 'add', ['f', 'a'], ['f', 'b']], ['c', c]] for c in order])
+        groups.append([['ch', 'list', ['f', 'a'], [['c', c], ['f', 'b']]] for c in order])
+        groups.append([['ite', 'pos', ['f', 'a'], ['c', c], ['f', 'b']] for c in order])
+    return groups
+
+
+def check_siblings(group, st, compile_expr_into_callable):
+    """all expressions of the group compiled one after the other over the fields of ONE fresh class, then each evaluated"""
+    with mk.World() as w:
+        K = w.module(BASE_SRC).K
+        fields = {n: f for n, f, _, _ in K.get_fields()}
+        fns = []
+        for t in group:
+            try:
+                fns.append(compile_expr_into_callable(build(t, fields)))
+            except Exception as e:
+                st.violate('build-fails siblings', 'building/compiling %s raised %r' % (render(t), e), {'siblings': group})
+                return
+        st.inc('trees', len(group))
+        for gi, (t, fn) in enumerate(zip(group, fns)):
+            for vals in value_sets(t):
+                p = K(a=vals['a'], b=vals['b'], ns=len(vals['s']), s=list(vals['s']), nd=len(vals['d']), d=vals['d'])
+                exp = outcome(lambda: eager(t, vals))
+                got = outcome(lambda: fn(pkt=p))
+                st.inc('evaluations')
+                if not same(exp, got):
+                    st.violate('value-mismatch siblings root=%s' % t[1],
+                               '%s with a=%r b=%r, compiled after %s: deferred -> %r, eager -> %r' % (
+                                   render(t), vals['a'], vals['b'], ', '.join(render(x) for x in group[:gi]) or 'nothing', got, exp),
+                               {'siblings': group}, snippet(t, vals, 'direct, after compiling ' + '; '.join(render(x) for x in group[:gi])))
+                    return
+
+
+def sibling_public_src(t1, t2):
+    return mk.class_src('K', [
+        'a = Int(1, signed=True)',
+        'b = Int(1, signed=True)',
+        'r = Data(0).repeated(count=%s)' % render(t1),
+        'w = Data(0).when(%s)' % render(t1),
+        'z = Data(%s)' % render(t2),
+    ])
+
+
+def check_sibling_public(t1, t2, st):
+    """the two expressions side by side in one declared class, through unpack()"""
+    from bisturi.packet import PacketError
+    src = sibling_public_src(t1, t2)
+    with mk.World() as w:
+        try:
+            K = w.module(src).K
+        except Exception as e:
+            st.violate('public-definition-fails siblings', 'class raised %r' % (e,), {'sibling_public': [t1, t2]}, mk.HEADER + src)
+            return
+        st.inc('public_classes')
+        for a in INT_VALUES:
+            vals = dict(a=a, b=1, s=[], d=b'')
+            raw = bytes([a & 0xff, 1]) + PUB_TAIL
+            e1 = outcome(lambda: eager(t1, vals))
+            e2 = outcome(lambda: eager(t2, vals))
+            st.inc('evaluations')
+            try:
+                p = K.unpack(raw)
+                got = ('ok', (len(p.r), p.w, p.z))
+            except PacketError as e:
+                got = ('err', e.fields_stack[0][1])
+            except Exception as e:
+                got = ('exc', type(e).__name__)
+            if e1[0] == 'exc' or not isinstance(e1[1], int):
+                want = ('err', 'r')
+            elif e2[0] == 'exc' or not isinstance(e2[1], int) or e2[1] < 0 or e2[1] > len(PUB_TAIL):
+                want = ('err', 'z')
+            else:
+                want = ('ok', (max(int(e1[1]), 0), b'' if e1[1] else None, PUB_TAIL[:int(e2[1])]))
+            if want != got:
+                st.violate('public-mismatch siblings', '%s (count, condition) next to %s (size) with a=%r: expected %r, unpack gave %r' % (
+                    render(t1), render(t2), a, want, got), {'sibling_public': [t1, t2]},
+                    mk.HEADER + src + 'p = K.unpack(%r)\nprint(len(p.r), p.w, p.z)\n' % raw)
+                return
+
+
+def sibling_public_pairs():
+    out = []
+    for op in ('mul', 'add', 'floordiv', 'mod', 'sub', 'and_', 'lshift', 'pow'):
+        for c1, c2 in ((2, 2.0), (2.0, 2), (1, True), (True, 1), (1.0, 1), (0, False), (False, 0), (0.0, 0), (3, 3.0)):
+            out.append((['bin', op, ['f', 'a'], ['c', c1]], ['bin', op, ['f', 'a'], ['c', c2]]))
+    return out
+
+
 def families(tier):
     fams = [('int-d1', depth1_int()), ('seq', seq_family()), ('nary', nary_family())]
     return fams
@@ -492,6 +596,12 @@ def _shard(shard, nshards, payload):
         check_tree_public(t, st, fam)
     if shard == 0:
         check_shared_table(st)
+    for i, g in enumerate(sibling_groups()):
+        if i % nshards == shard:
+            check_siblings(g, st, compile_expr_into_callable)
+    for i, (t1, t2) in enumerate(sibling_public_pairs()):
+        if i % nshards == shard:
+            check_sibling_public(t1, t2, st)
     return st
 
 
@@ -508,7 +618,7 @@ def run(tier):
         'public_classes': st.n.get('public_classes', 0),
         'rule': 'all expression trees of depth <=1 and %s over 18 binary operators in every operand order (field/const/sub-expression), '
                 'neg/invert/truth, plus the sequence family (index, constant slices, len, ==/!=) and the n-ary family (chooses in list/positional/'
-                'dict/keyword form, if_true_then_else); operands a,b in -2..3, s in [],[0],[1,2,3], d in b"",b"ab"; '
+                'dict/keyword form, if_true_then_else), plus groups of sibling expressions over the same fields that differ only in equal-comparing constants of different type (2/2.0, 1/True/1.0, 0/False/0.0) compiled side by side; operands a,b in -2..3, s in [],[0],[1,2,3], d in b"",b"ab"; '
                 'states = distinct (ok/exception, result type or exception class)' % (
                     'all depth-2 trees' if tier == 'thorough' else 'depth-2 trees nested on one side'),
         'exhaustive': True,
@@ -525,6 +635,12 @@ def replay(case):
     st = Stats()
     if 'shared_table' in case:
         check_shared_table(st)
+        return st.violations
+    if 'siblings' in case:
+        check_siblings(case['siblings'], st, compile_expr_into_callable)
+        return st.violations
+    if 'sibling_public' in case:
+        check_sibling_public(case['sibling_public'][0], case['sibling_public'][1], st)
         return st.violations
     t = case['tree']
     if case.get('channel') == 'public':
